@@ -387,11 +387,10 @@ Section Model.
   Definition run_steps (ws : list wiring) (all : list step) (evs : list tevent) (s : st) : st :=
     fold_left (fun s stp => run_step ws all evs stp s) all s.
 
-  (** the importer after unit conversion and augmentation: graph in generations, events of that graph, sampled demes,
-      frozen demes, reference size (None: root size), sample sizes *)
-  Definition core (ws : list wiring) (pnu : bool) (g : graph) (oracle_evs : list tevent) (sampled frozen : list nat)
-             (Ne : option F) (ns : list nat) : list call :=
-    if existsb (fun iv => Nat.ltb 5 (length (present g iv))) (used_intervals g) then [err_call 1] else
+  (** everything up to the last integration / event: the state (labels of the axes, calls so far) *)
+  Definition core_run (ws : list wiring) (pnu : bool) (g : graph) (oracle_evs : list tevent) (sampled frozen : list nat)
+             (Ne : option F) : st :=
+    if existsb (fun iv => Nat.ltb 5 (length (present g iv))) (used_intervals g) then mkSt [] [err_call 1] false else
     let NeV := match Ne with Some x => x | None => root_Ne g end in
     let steps := plan g frozen NeV in
     let evs := oracle_evs ++ marg_events g sampled in
@@ -400,7 +399,10 @@ Section Model.
     (* phi_1D(xx, nu=...): [pnu = false] is the source that does not pass nu (equilibrium of the reference size) *)
     let root_nu := if pnu then match st_nus first with s :: _ => sf_eval s n0 | [] => n1 end else n1 in
     let s0 := mkSt [] [simple_call F_phi_1D [root_nu] [] [root]] true in
-    let s1 := run_steps ws steps evs s0 in
+    run_steps ws steps evs s0.
+
+  (** the end of SFS: reorder to the requested sampled-deme order, then from_phi *)
+  Definition core_finish (s1 : st) (sampled ns : list nat) : list call :=
     let s2 := if s_ok s1 then
                 match indices_of sampled (s_ids s1) with
                 | None => fail 22 s1
@@ -412,6 +414,12 @@ Section Model.
                 end
               else s1 in
     rev (s_calls s2).
+
+  (** the importer after unit conversion and augmentation: graph in generations, events of that graph, sampled demes,
+      frozen demes, reference size (None: root size), sample sizes *)
+  Definition core (ws : list wiring) (pnu : bool) (g : graph) (oracle_evs : list tevent) (sampled frozen : list nat)
+             (Ne : option F) (ns : list nat) : list call :=
+    core_finish (core_run ws pnu g oracle_evs sampled frozen Ne) sampled ns.
 
   (** ** DemesUtil.slice at the resolved level *)
   Definition tshift (t : F) (a : time) : time := match a with Fin x => Fin (x - t) | Inf => Inf end.
